@@ -139,6 +139,13 @@ enum Step {
   /// wait until every outstanding response has arrived and the server is quiescent; then, when
   /// `check` is set, compare the accumulated diagnostics with a fresh analysis of the world
   Barrier { check: bool, label: String },
+  /// C16 closed loop, phase 1 (at quiescence): ask for code actions at an unresolved-class
+  /// diagnostic the client holds for `module`, or for completion at a position
+  ActionsBegin { module: ModName, pick: usize, completion: Option<(u32, u32)> },
+  /// phase 2: the response has arrived; check every proposed edit, apply one, send it back
+  ActionsContinue { id: u64, module: ModName, pick: usize, completion: bool },
+  /// phase 3: the server has re-analysed the edited document
+  ActionsVerify { module: ModName, class: String, source: String, tag: String, skip: bool, before: Vec<String> },
 }
 
 fn frame(v: &Value) -> Vec<u8> {
@@ -272,7 +279,12 @@ fn plan_op(sess: &mut Session, op: &Op, rng: &mut Rng, stats: &mut simcore::repo
       };
       stats.inc("l2_requests");
     }
-    _ => {}
+    Op::ApplyActions { module, pick } => {
+      sess.steps.push(Step::ActionsBegin { module: module.clone(), pick: *pick, completion: None });
+    }
+    Op::ApplyCompletion { module, line, col, pick } => {
+      sess.steps.push(Step::ActionsBegin { module: module.clone(), pick: *pick, completion: Some((*line, *col)) });
+    }
   }
   let frames = sess.steps.split_off(before);
   Planned { disk, frames }
@@ -522,6 +534,7 @@ pub fn execute_l2(sc: &Scenario, mode: Mode, tag: &str, mut trace: Option<&mut V
   let mut sending: Option<(Vec<u8>, usize)> = None; // frame being written, offset
   let mut inbox: Vec<u8> = Vec::new();
   let mut published: HashMap<String, Value> = HashMap::new();
+  let mut responses: HashMap<u64, Value> = HashMap::new();
   let mut digest = Fnv::new();
   let mut steps: u64 = 0;
   let mut messages_sent: u64 = 0;
@@ -560,6 +573,7 @@ pub fn execute_l2(sc: &Scenario, mode: Mode, tag: &str, mut trace: Option<&mut V
           }
           digest.u64(id);
           digest.str(&v.get("result").map(|r| r.to_string()).unwrap_or_else(|| v["error"].to_string()));
+          responses.insert(id, v.get("result").cloned().unwrap_or(Value::Null));
           if let Some(t) = trace.as_deref_mut() {
             t.push(json!({"response": id, "result": v.get("result"), "error": v.get("error")}));
           }
@@ -581,11 +595,152 @@ pub fn execute_l2(sc: &Scenario, mode: Mode, tag: &str, mut trace: Option<&mut V
         Step::Frame { expects, .. } => {
           can_send = outstanding.len() < max_inflight || expects.is_none();
         }
-        Step::Barrier { .. } => {}
+        _ => {}
       }
     }
     // a barrier is passed only at quiescence
     if !server_runnable && !can_read && sending.is_none() {
+      // C16 closed loop through the real stack
+      if outstanding.is_empty() && !server_done {
+        let dynamic = matches!(script.front(), Some((_, Step::ActionsBegin { .. } | Step::ActionsContinue { .. } | Step::ActionsVerify { .. })));
+        if dynamic {
+          let (_, step) = script.pop_front().unwrap();
+          let uri_of = |m: &ModName| -> String {
+            let mut p = root.clone();
+            for (i, part) in m.iter().enumerate() {
+              if i + 1 == m.len() { p.push(format!("{part}.sam")) } else { p.push(part) }
+            }
+            format!("file://{}", p.display())
+          };
+          let messages_of = |published: &HashMap<String, Value>, m: &ModName| -> Vec<(Value, String)> {
+            published
+              .get(&uri_of(m))
+              .and_then(|d| d.as_array())
+              .map(|a| a.iter().map(|d| (d["range"].clone(), d["message"].as_str().unwrap_or("").to_string())).collect())
+              .unwrap_or_default()
+          };
+          match step {
+            Step::ActionsBegin { module, pick, completion } => {
+              let text_ok = world_now.get(&module).map(|t| t.is_ascii()).unwrap_or(false);
+              if text_ok {
+                let request = match completion {
+                  Some((line, col)) => Some(("textDocument/completion", json!({"textDocument": {"uri": uri_of(&module)}, "position": {"line": line, "character": col}}))),
+                  None => messages_of(&published, &module)
+                    .into_iter()
+                    .find(|(_, m)| m.starts_with("Cannot resolve class `"))
+                    .map(|(range, _)| ("textDocument/codeAction", json!({"textDocument": {"uri": uri_of(&module)}, "range": range, "context": {"diagnostics": []}}))),
+                };
+                if let Some((method, params)) = request {
+                  sess.next_id += 1;
+                  let id = sess.next_id;
+                  let bytes = frame(&json!({"jsonrpc": "2.0", "id": id, "method": method, "params": params}));
+                  script.push_front((Vec::new(), Step::ActionsContinue { id, module, pick, completion: completion.is_some() }));
+                  script.push_front((Vec::new(), Step::Frame { bytes, expects: Some(id), label: method.to_string() }));
+                  result.probes.inc("l2_actions_requested");
+                }
+              }
+            }
+            Step::ActionsContinue { id, module, pick, completion } => {
+              let old_text = world_now.get(&module).cloned().unwrap_or_default();
+              let source = if completion { "completion" } else { "code_action" };
+              let res = responses.get(&id).cloned().unwrap_or(Value::Null);
+              let to_edits = |v: &Value| -> Vec<(samlang_ast::Location, String)> {
+                v.as_array()
+                  .map(|a| {
+                    a.iter()
+                      .map(|e| {
+                        let r = &e["range"];
+                        let pos = |p: &Value| samlang_ast::Position(p["line"].as_u64().unwrap_or(0) as u32, p["character"].as_u64().unwrap_or(0) as u32);
+                        (
+                          samlang_ast::Location { module_reference: samlang_heap::ModuleReference::DUMMY, start: pos(&r["start"]), end: pos(&r["end"]) },
+                          e["newText"].as_str().unwrap_or("").to_string(),
+                        )
+                      })
+                      .collect()
+                  })
+                  .unwrap_or_default()
+              };
+              // (class, named module, edits)
+              let mut proposals: Vec<(String, Option<String>, Vec<(samlang_ast::Location, String)>)> = Vec::new();
+              for item in res.as_array().cloned().unwrap_or_default() {
+                if completion {
+                  let edits = to_edits(&item["additionalTextEdits"]);
+                  if edits.is_empty() {
+                    continue;
+                  }
+                  let from = edits.iter().find_map(|(_, t)| {
+                    let idx = t.find(" from ")?;
+                    Some(t[idx + 6..].chars().take_while(|c| c.is_ascii_alphanumeric() || *c == '.' || *c == '_' || *c == '-').collect::<String>())
+                  });
+                  proposals.push((item["label"].as_str().unwrap_or("").to_string(), from, edits));
+                } else {
+                  let title = item["title"].as_str().unwrap_or("");
+                  let Some((class, named)) = crate::workload::c16::title_parts(title) else { continue };
+                  let changes = &item["edit"]["changes"];
+                  let edits = changes.as_object().and_then(|o| o.get(&uri_of(&module))).map(|v| to_edits(v)).unwrap_or_default();
+                  if changes.as_object().map(|o| o.keys().any(|k| *k != uri_of(&module))).unwrap_or(false) && mode == Mode::C16 {
+                    result.violations.push(crate::exec::Found { signature: format!("{source}|edit_for_another_document|l2"), op_index: messages_sent as usize, detail: format!("L2: the workspace edit of `{title}` names a document other than the one the action was requested for") });
+                  }
+                  proposals.push((class, Some(named), edits));
+                }
+              }
+              proposals.truncate(6);
+              let mut candidates: Vec<(String, String, String, bool)> = Vec::new(); // class, new text, tag, skip
+              for (class, named, edits) in &proposals {
+                result.probes.inc("l2_actions_checked");
+                let tag = crate::workload::c16::signature_tag(&old_text, class);
+                let r = crate::workload::c16::check_edits(&old_text, class, named.as_deref(), edits);
+                if mode == Mode::C16 {
+                  for (clause, detail) in &r.failures {
+                    let sig = format!("{source}|{clause}|{tag}");
+                    if !result.violations.iter().any(|x| x.signature == sig) {
+                      result.violations.push(crate::exec::Found { signature: sig, op_index: messages_sent as usize, detail: format!("L2 {source} for `{class}` in {}: {detail}", mod_display(&module)) });
+                    }
+                  }
+                }
+                if let Some(t) = r.new_text {
+                  candidates.push((class.clone(), t, tag, r.old_had_syntax_errors || !r.failures.is_empty()));
+                }
+              }
+              if !candidates.is_empty() {
+                let (class, new_text, tag, skip) = candidates[pick % candidates.len()].clone();
+                let before: Vec<String> = messages_of(&published, &module).into_iter().map(|x| x.1).collect();
+                let bytes = frame(&json!({"jsonrpc": "2.0", "method": "textDocument/didChange", "params": {"textDocument": {"uri": uri_of(&module), "version": 2}, "contentChanges": [{"text": new_text}]}}));
+                script.push_front((Vec::new(), Step::ActionsVerify { module: module.clone(), class, source: source.to_string(), tag, skip, before }));
+                script.push_front((vec![Disk::Write(module, new_text)], Step::Frame { bytes, expects: None, label: "didChange(applied edit)".into() }));
+                result.probes.inc("l2_actions_applied");
+                result.nontrivial = true;
+              }
+            }
+            Step::ActionsVerify { module, class, source, tag, skip, before } => {
+              if !skip && mode == Mode::C16 {
+                let now: Vec<String> = messages_of(&published, &module).into_iter().map(|x| x.1).collect();
+                let mut report = |clause: &str, detail: String| {
+                  let sig = format!("{source}|{clause}|{tag}");
+                  if !result.violations.iter().any(|x| x.signature == sig) {
+                    result.violations.push(crate::exec::Found { signature: sig, op_index: messages_sent as usize, detail });
+                  }
+                };
+                if now.iter().any(|m| *m == format!("Cannot resolve class `{class}`.")) {
+                  report("iv_still_unresolved", format!("L2: after applying the {source} for `{class}` to {} the class is still reported unresolved", mod_display(&module)));
+                }
+                for m in &now {
+                  if before.contains(m) {
+                    continue;
+                  }
+                  if m.starts_with(&format!("There is no `{class}` export in")) {
+                    report("vi_new_import_error_MissingExport", format!("L2: after applying the {source} for `{class}` to {}: {m}", mod_display(&module)));
+                  } else if m.starts_with("Cannot resolve module `") {
+                    report("vi_new_import_error_CannotResolveModule", format!("L2: after applying the {source} for `{class}` to {}: {m}", mod_display(&module)));
+                  }
+                }
+              }
+            }
+            _ => unreachable!(),
+          }
+          continue;
+        }
+      }
       let barrier = match script.front() {
         Some((_, Step::Barrier { check, label })) => Some((*check, label.clone())),
         _ => None,
@@ -827,7 +982,7 @@ pub fn execute_l2(sc: &Scenario, mode: Mode, tag: &str, mut trace: Option<&mut V
 
 pub fn declare_counters(ev: &mut simcore::report::Evidence) {
   ev.faults_fired.declare(&["l2_short_reads", "l2_short_writes", "l2_transport_stalls", "l2_frame_sent_in_pieces", "l2_did_create_files", "l2_did_rename_files", "l2_did_delete_files", "l2_delete_of_file_unknown_to_server", "l2_requests", "l2_notification_pipelined_with_requests"]);
-  ev.probes.declare(&["l2_messages_sent", "l2_error_responses", "l2_sessions_with_pipelining", "l2_sessions_completed_cleanly", "l2_quiescent_comparisons"]);
+  ev.probes.declare(&["l2_messages_sent", "l2_error_responses", "l2_sessions_with_pipelining", "l2_sessions_completed_cleanly", "l2_quiescent_comparisons", "l2_actions_requested", "l2_actions_checked", "l2_actions_applied"]);
 }
 
 #[allow(dead_code)]
